@@ -149,7 +149,11 @@ def post_state(res, bank, other_bank, before, key, wit, ticked=False):
     elif bank.snapshot is not None:
         res.violation(f"C09/{key}/left-latched", "the unit still serves a latched snapshot after the read", wit)
     bad = [(l, v) for l, v in bank.writes if l != 2]
-    if bad:
+    if not bank.latchable and bank.writes:
+        # a bank without the latch function has no business being written to by a read, lock byte included
+        res.violation(f"C09/{key}/memory-written", f"a read of bank {bank.number}, which has no latch, wrote {bank.writes[:4]} "
+                      "(location, value)", wit)
+    elif bad:
         res.violation(f"C09/{key}/memory-written", f"a read wrote to locations {bad[:4]}", wit)
     if not ticked:
         now = list(bank.image)
